@@ -94,7 +94,7 @@ def first_diff(a, b):
 
 class C19(Machine):
     ID = "C19"
-    FAMILY_WEIGHTS = {"sparse": 4, "dense": 1, "canal": 3, "modular": 3, "maa": 2, "cascade": 2}
+    FAMILY_WEIGHTS = {"sparse": 3, "dense": 1, "canal": 2, "modular": 3, "maa": 2, "cascade": 2, "maa_cascade": 4}
     NMAX = {"quick": 6, "thorough": 7}
     FMTS = ("bnet", "aeon", "api")
 
@@ -105,6 +105,15 @@ class C19(Machine):
         sc = {"property": self.ID, "run_seed": run_seed, "tier": tier, "net": net, "config": None, "walk_seed": None, "reorder_seed": None, "ops_seed": run_seed, "params": {"len": prng.randint(2, 9), "hash_seeds": HASH_SEEDS[: 2 if tier == "quick" else 3], "other_seed": prng.randrange(1 << 30)}}
         if prng.random() < 0.3:
             sc["config"] = gen_knobs(prng, p=0.3)
+        if prng.random() < 0.35:
+            # skip-seeds scenario: partial expansion, skipping, then the seeds of every node.
+            # Skip nodes prune by intersections with other nodes: the part of attractor
+            # detection whose outcome is most sensitive to incidental ordering.
+            sc["params"]["mode"] = "skip_seeds"
+            sc["params"]["expand"] = prng.randint(1, 4)
+            sc["config"] = None
+            if prng.random() < 0.7:
+                sc["net"] = gen_network(sub_rng(run_seed, "net-skip"), {"maa_cascade": 3, "maa": 1, "modular": 1}, nmax=self.NMAX.get(tier, 6), fmts=self.FMTS, shuffle_order=True)
         return sc
 
     def gen_ops(self, sc):
@@ -113,6 +122,25 @@ class C19(Machine):
         ops = []
         if w.log[0]["out"]["cls"] != "ok":
             return ops
+        if sc["params"].get("mode") == "skip_seeds":
+            seq = [{"op": "expand_one", "node": w.space_of(0)}]
+            w.apply(seq[0])
+            for _ in range(sc["params"]["expand"]):
+                stubs = w.stubs()
+                if not stubs:
+                    break
+                op = {"op": "expand_one", "node": w.space_of(rng.choice(stubs))}
+                w.apply(op)
+                seq.append(op)
+            op = {"op": "skip_remaining"}
+            w.apply(op)
+            seq.append(op)
+            ids = list(w.node_ids())
+            if rng.random() < 0.5:
+                rng.shuffle(ids)
+            for i in ids[:14]:
+                seq.append({"op": "seeds", "node": w.space_of(i), "compute": True, "fallback": False})
+            return seq
         for _ in range(sc["params"]["len"]):
             op = full_op(w, rng, w=(0.42, 0.25, 0.08, 0.05, 0.12, 0.08))
             out = w.apply(op)
